@@ -246,7 +246,7 @@ pub const DENSE: u64 = 8;
 /// Upper bound of the number of values `field_values` returns (12 boundary values, <= 10 layout-aware, 14 dense).
 pub const MAX_FIELD_VALUES: usize = 40;
 
-/// The structured mutation values for a field: {0, 1, v-1, v+1, 0x7f, 0x80, 0xffff, 2^31-1, 2^31, 2^32-1}
+/// The structured mutation values for a field: {0, 1, v-1, v+1, 0x7f, 0x80, 0xffff, 2^31-1, 2^31, 2^32-1, 2^16, 2^24}
 /// as far as the field's width allows (8-byte and text fields additionally get 2^63 and 2^64-1), without the
 /// current value, deduplicated, in this order.
 pub fn field_values(b: &[u8], f: &Field) -> Vec<u64> {
@@ -261,7 +261,7 @@ pub fn field_values(b: &[u8], f: &Field) -> Vec<u64> {
         c.push(v.wrapping_sub(1) & max);
         c.push(v.wrapping_add(1) & max);
     }
-    c.extend_from_slice(&[0x7f, 0x80, 0xffff, (1 << 31) - 1, 1 << 31, u32::MAX as u64]);
+    c.extend_from_slice(&[0x7f, 0x80, 0xffff, (1 << 31) - 1, 1 << 31, u32::MAX as u64, 1 << 16, 1 << 24]);
     if max == u64::MAX {
         c.extend_from_slice(&[1 << 63, u64::MAX]);
     }
@@ -270,8 +270,14 @@ pub fn field_values(b: &[u8], f: &Field) -> Vec<u64> {
     c.extend_from_slice(&f.extra);
     if let Some(v) = v {
         for d in 2..=DENSE {
-            c.push(v.wrapping_sub(d) & max);
-            c.push(v.wrapping_add(d) & max);
+            // (no wrap-around: v-1 above already gives the maximum for v = 0, and every value next to the maximum
+            // of a count field costs a drive of up to 2^24 items)
+            if d <= v {
+                c.push(v - d);
+            }
+            if v.checked_add(d).map(|x| x <= max).unwrap_or(false) {
+                c.push(v + d);
+            }
         }
     }
     let mut out = Vec::new();
